@@ -110,5 +110,12 @@ META["C17"] = dict(
     technique="Lean 4 invariant proof over a task/lock model with source-extracted structure + end-to-end stall scenario",
 )
 
+META["C15"] = dict(
+    text="policy theorem in Lean 4 (c15_policy: with the configuration read from the source a connection is established iff the client's certificate chains to the server's CA and the server's to the client's CA for localhost; c15_untrusted_refused; c15_generated_set_works) over an abstract chain-validation relation, plus an exhaustive end-to-end run of all 8 client/server identity pairings with fresh keys; a permissive verifier or a disabled server check changes the regenerated facts (the obligation config_is_mutual stops compiling) and flips a pairing",
+    design_ref="DESIGN.md section 6, C15",
+    note="X.509, signatures and the TLS handshake are rustls/webpki/ring: trusted, exercised, not proved",
+    technique="Lean 4 policy theorem over source-extracted configuration + exhaustive pairing run over real QUIC",
+)
+
 _PENDING = "not built yet in this session; planned at proof level (DESIGN.md section 6) — will be claimed as soon as its first theorem and correspondence suite exist"
 NOT_APPLICABLE = {f"C{n:02d}": _PENDING for n in range(1, 18)}
